@@ -542,6 +542,16 @@ fn fuzz(r: &mut Rng, v: &Valid) -> String {
     let cs: Vec<char> = v.text.chars().collect();
     let alphabet = ['(', ')', ',', '.', '"', ' ', '\n', 's', 'a', 'c', 'v', 'f', 'n', 'x', '1', '_', '\u{e4}'];
     let mut out: Vec<char> = cs.clone();
+    // truncations: anywhere, and in particular right where a formula or label must start
+    if !cs.is_empty() && r.chance(1, 3) {
+        let after: Vec<usize> = cs.iter().enumerate().filter(|(_, c)| **c == '(' || **c == ',').map(|(i, _)| i + 1).collect();
+        let p = if !after.is_empty() && r.bool() { after[r.usize(after.len())] } else { r.usize(cs.len() + 1) };
+        let mut t: String = cs[..p].iter().collect();
+        if r.chance(1, 4) {
+            t.push(if r.bool() { ' ' } else { '\n' });
+        }
+        return t;
+    }
     let k = r.range(1, 2);
     for _ in 0..k {
         if out.is_empty() {
@@ -816,7 +826,12 @@ pub fn exec(ws: &[&str], l: &str, out: &mut Out) -> bool {
             out.line(l);
             out.flush();
             match unhex(ws[1]) {
-                Some(text) => out.line(&format!("= {}", observe(&text))),
+                Some(text) => {
+                    let o = observe(&text);
+                    out.line(&format!("= {o}"));
+                    // "the parser does not panic" is part of the property, whatever the text
+                    out.line(if o == "panic" { "~ panic" } else { "~ nopanic" });
+                }
                 None => out.line("= bad-request"),
             }
             true
